@@ -61,17 +61,17 @@ type PointRec struct {
 
 // Exec is the record of one execution.
 type Exec struct {
-	Points    []PointRec
-	Deadlock  bool
-	Blocked   []string // for a deadlock: "thread name: op" of every unfinished thread
-	Horizon   bool     // the execution exceeded MaxPoints
-	Panic     string   // a controlled thread panicked (value + stack)
-	Diverged  string   // replay prefix could not be followed (hard error)
-	Zombies   bool     // some goroutine of the execution did not terminate after an abort
+	Points   []PointRec
+	Deadlock bool
+	Blocked  []string // for a deadlock: "thread name: op" of every unfinished thread
+	Horizon  bool     // the execution exceeded MaxPoints
+	Panic    string   // a controlled thread panicked (value + stack)
+	Diverged string   // replay prefix could not be followed (hard error)
+	Zombies  bool     // some goroutine of the execution did not terminate after an abort
 	// ExploreFrom is the index of the first point the explorer may branch at
 	// (set by BeginExplore; 0 = from the start).
 	ExploreFrom int
-	ThreadCnt int
+	ThreadCnt   int
 }
 
 // Choices returns the choice indices of the execution.
@@ -345,15 +345,15 @@ func (sc *sched) exit(t *thread) {
 
 // Stats is what an exploration covered.
 type Stats struct {
-	Executions  int
-	Points      int // scheduling decisions over all executions (transitions)
-	MaxPoints   int
-	Bound       int  // preemption bound of this pass
-	Complete    bool // every schedule with <= Bound preemptions was executed
-	Outcomes    map[string]int
-	MaxThreads  int
-	BranchedAt  int
-	Stopped     string
+	Executions int
+	Points     int // scheduling decisions over all executions (transitions)
+	MaxPoints  int
+	Bound      int  // preemption bound of this pass
+	Complete   bool // every schedule with <= Bound preemptions was executed
+	Outcomes   map[string]int
+	MaxThreads int
+	BranchedAt int
+	Stopped    string
 }
 
 // Explorer enumerates all schedules of body with at most Bound preemptions.
